@@ -208,9 +208,9 @@ func sexpInt(s *Sexp) (string, bool) {
 }
 
 type litGen struct {
-	g      *Gen
-	strs   map[string]string
-	pkg    *types.Package
+	g       *Gen
+	strs    map[string]string
+	pkg     *types.Package
 	partial []string
 }
 
@@ -502,6 +502,8 @@ type Scenario struct {
 	Test string `json:"test"`
 }
 
+var obligationSuffixRe = regexp.MustCompile(`(@return\d+|~\d+)+$`)
+
 func loadScenarios(verif string) map[string]Scenario {
 	out := map[string]Scenario{}
 	b, err := os.ReadFile(filepath.Join(verif, "replay", "scenarios.json"))
@@ -516,7 +518,12 @@ func (w *Workspace) scenarioReplay(o *Obligation, scratch string) *ReplayOutcome
 	if strings.HasSuffix(o.Name, "!outside_known") {
 		return nil // the scenario of the base obligation is the known case itself
 	}
-	sc, ok := loadScenarios(w.verif)[o.Name]
+	scs := loadScenarios(w.verif)
+	sc, ok := scs[o.Name]
+	if !ok {
+		// scenarios are registered per clause: the per-return-site and duplicate-name suffixes do not matter
+		sc, ok = scs[obligationSuffixRe.ReplaceAllString(o.Name, "")]
+	}
 	if !ok {
 		return nil
 	}
